@@ -251,7 +251,8 @@ Definition stash_push_staged (g : git) : bool * git :=
       let I := g_index g in
       let W := g_wt g in
       let st := diff_cached g in
-      if is_nil st then (true, g)                   (* "No local changes to save" / "No staged changes" *)
+      if is_nil st then                             (* "No local changes to save" (0) / "No staged changes" (1) *)
+        (negb (existsb (fun p => negb (oblob_eqb (tget W p) (tget I p))) (tkeys I)), g)
       else
         let g1 := set_stash g ({| s_base := H; s_index := I; s_wt := I |} :: g_stash g) in
         if forallb (fun p => is_some (unapply_o (tget H p) (tget I p) (tget W p))) st
@@ -325,6 +326,10 @@ Definition stash_pop_index (g : git) : outcome :=
       let has_index := negb (tree_eqb (s_base e) (s_index e) || tree_eqb c (s_index e)) in
       let ipatch := fun p => apply_o (tget (s_base e) p) (tget (s_index e) p) (tget c p) in
       if has_index && negb (forallb (fun p => is_some (ipatch p)) ks) then Failed g   (* "conflicts in index" *)
+      else if has_index && negb (tree_eqb c (head_tree g)) then Failed (set_index g (head_tree g))
+           (* with an index to restore, git saves the patched index tree and runs `git reset`; the merge then
+              refuses because the index no longer is the tree it started from ("Your local changes ... would
+              be overwritten by merge", "Index was not unstashed"): what was staged is now unstaged *)
       else
         let pm := fun p => pop_path (tget (s_base e) p) (tget c p) (tget (s_wt e) p) (tget W p) in
         if existsb (fun p => match pm p with PRefuse => true | _ => false end) ks then Failed g
@@ -353,6 +358,9 @@ Definition resolve (g : git) (r : refarg) : option (headref * N) :=
 Inductive cpath := CKeep | CSet (v : option blob) | CRefuse.
 Definition checkout_path (h t i w : option blob) : cpath :=
   if oblob_eqb h t then CKeep                   (* same in both commits: local changes are carried over *)
+  else if negb (is_some i) && negb (is_some t) && is_some w then CRefuse
+                                                (* staged deletion, an untracked file of that name, the target
+                                                   lacks the path: "untracked working tree files would be removed" *)
   else if oblob_eqb i t then CKeep              (* the index already has the target version *)
   else if oblob_eqb i h then
     (match i, w with
